@@ -16,6 +16,17 @@ CLAIMED = {
  'C02': dict(text='inverse(forward(x)) executed symbolically; per sample z3 shows equality with PyWavelets waverec(wavedec(x)) within 1e-9*gain and, where PyWavelets itself is PR, with x within 1e-7*gain, for every input.', ref='4 C02'),
  'C03': dict(text='DTCWTForward executed symbolically; per lowpass/subband element z3 shows equality with the basis-response form of the reference dtcwt.Transform2d.forward for every input; pyramid shapes compared.', ref='4 C03'),
  'C04': dict(text='DTCWTInverse(DTCWTForward(x)) executed symbolically; per sample z3 shows equality with the (even-extended) input within 1e-7*gain for every input; output shape checked.', ref='4 C04'),
+ 'C05': dict(text='the DWT modules are run with every subset of arguments requiring grad; a tape model of autograd (validated against real autograd per configuration) calls the repository\'s own '
+                  'backward functions; per leaf element z3 shows the gradient form equals J^T g read off the same symbolic forward run, for every cotangent g; a leaf that needs grad and gets none is reported.', ref='4 C05'),
+ 'C06': dict(text='as C05 for DTCWTForward/DTCWTInverse: 6 (thorough 20) filter pairs, layouts, skip/include masks, all inverse grad subsets incl. None levels; data-dependent branches in the backward are explored path by path.', ref='4 C06'),
+ 'C07': dict(text='each transform is run on a (B,C) batch of atoms: every output must be a homogeneous linear form on every feasible path and all paths must agree (linearity), and the batched run must equal the per-slice (1,1) runs '
+                  '(slice independence, same operator for every slice and batch shape); optional prelude call with another wavelet of the same length.', ref='4 C07'),
+ 'C15': dict(text='ordered sequences of calls from a pool of 13 module configurations, each in a fresh process with a forked pristine baseline: argument tensors/lists unchanged, write barrier silent, buffers unchanged, '
+                  'outputs after the history identical to the baseline (symbolic identity, z3 on differences), module-level state digest unchanged (induction step for longer histories), autograd on/off identical.', ref='4 C15',
+             note=BASE_NOTE + ' THREADS: no interleaving is explored; only the non-interference premises (no writes to shared or argument state) are decided, from which schedule independence follows if torch kernels and dict are thread-safe.'),
+ 'C16': dict(text='PARTIAL claim: dtype flow over 8 module/input precision combinations (tags + torch kernel dtype errors modelled, compared with real torch), converted == constructed module, float32 tap quantisation bound '
+                  '|T32-T64| <= 64 eps32 gain for all inputs (z3), strided/sliced/transposed symbolic views == contiguous copies.', ref='4 C16',
+             note=BASE_NOTE + ' NOT decided: floating-point rounding of the arithmetic inside ATen/oneDNN kernels (accumulation order unspecified, not encodable); a cancellation-prone reformulation is invisible to this check.'),
  'C10': dict(text='inverse DWT executed on a free symbolic pyramid (not only transforms of signals); per sample z3 shows equality with the waverec basis-response form; None levels compared with zero-substitution of the full symbolic run and with the oracle.', ref='4 C10'),
  'C11': dict(text='DTCWTInverse executed on a free symbolic pyramid of reference shapes; per sample z3 shows equality with dtcwt.Transform2d.inverse; every absence mask (None / empty tensor for lowpass or any level) is compared with the reference given zeros.', ref='4 C11'),
  'C12': dict(text='get_dimensions5/6 checked for ALL integers by CrossHair (z3) against the axis specification; all 30 layouts (+negative aliases) forward == movedim(default) and inverse(layout) == default inverse on free symbolic pyramids; all skip/include masks and prefix consistency as exact identities between symbolic runs.', ref='4 C12',
